@@ -4,10 +4,33 @@ import datetime as pydt
 from harness import framework as fw
 
 
-def mk_dt(v):
+class ZoneWithDst(pydt.tzinfo):
+    """a time zone object of the real kind: a total offset of which one hour is daylight saving time."""
+
+    def __init__(self, minutes):
+        self.m = minutes
+
+    def utcoffset(self, dt):
+        return pydt.timedelta(minutes=self.m)
+
+    def dst(self, dt):
+        return pydt.timedelta(hours=1)
+
+    def tzname(self, dt):
+        return "X"
+
+
+def mk_dt(v, zone="fixed"):
     from dateutil.tz import tzoffset
     y, m, d, H, M, S, us, off = v
-    tz = None if off is None else tzoffset(None, off * 60)
+    if off is None:
+        tz = None
+    elif zone == "dst":
+        tz = ZoneWithDst(off)
+    elif zone == "stdlib":
+        tz = pydt.timezone(pydt.timedelta(minutes=off))
+    else:
+        tz = tzoffset(None, off * 60)
     return pydt.datetime(y, m, d, H, M, S, us, tzinfo=tz)
 
 
@@ -71,12 +94,40 @@ class C16(fw.Prop):
 
             def impl():
                 from dlms_cosem import time as t
-                bs = t.datetime_to_bytes(mk_dt(v), status_obj(st))
+                if off is not None and d.get("zone") != "dst":
+                    # the same instant written in another zone is encoded first: what a date-time encodes to depends on its own
+                    # local fields and offset only, not on equal instants seen earlier
+                    other = mk_dt(v).astimezone(pydt.timezone(pydt.timedelta(minutes=(off + 60 if off < 780 else off - 60))))
+                    try:
+                        t.datetime_to_bytes(other, status_obj(st))
+                    except Exception:  # noqa
+                        pass
+                bs = t.datetime_to_bytes(mk_dt(v, d.get("zone", "fixed")), status_obj(st))
                 if op == "enc":
                     return "ok " + fw.hx(bs)
                 dt2, st2 = t.datetime_from_bytes(bs)
                 return show(dt2, st2)
             return fw.Case(f"time {op} {args}", impl, "prop", d, tags=(op,))
+        if op == "dn":
+            # the date-time inside a data-notification: what the date-time codec refuses is not delivered as "no date-time"
+            b = bytes.fromhex(d["b"])
+
+            def impl():
+                from dlms_cosem.protocol import xdlms
+                from dlms_cosem import time as t
+                apdu = b"\x0f\x00\x00\x00\x01\x0c" + b + b"\x09\x01\x01"
+                try:
+                    t.datetime_from_bytes(b)
+                    alone = "ok"
+                except Exception:  # noqa
+                    alone = "refused"
+                try:
+                    n = xdlms.DataNotification.from_bytes(apdu)
+                    inside = "ok" if n.date_time is not None else "ok-without-date-time"
+                except Exception:  # noqa
+                    inside = "refused"
+                return "ok dn" + ("" if alone == inside else f" date-time-alone:{alone} in-data-notification:{inside}")
+            return fw.Case("echo dn", impl, "prop", d, tags=("data-notification",))
         if op == "dec":
             b = bytes.fromhex(d["b"])
 
@@ -111,8 +162,9 @@ class C16(fw.Prop):
                          rng.randint(0, 59), rng.randint(0, 999999), rng.choice([None, rng.randint(-840, 840)])])
         for i, v in enumerate(vals):
             st = [0, 1, 2, 4, 8, 0x80, 0x8F][i % 7]
-            yield mk({"op": "enc", "v": v, "st": st})
-            yield mk({"op": "rt", "v": v, "st": st})
+            zone = ["fixed", "fixed", "stdlib", "dst"][i % 4]        # (how the caller's tzinfo is implemented does not matter)
+            yield mk({"op": "enc", "v": v, "st": st, "zone": zone})
+            yield mk({"op": "rt", "v": v, "st": st, "zone": zone})
         for j in range(32):
             st = (j & 15) | (0x80 if j & 16 else 0)
             yield mk({"op": "enc", "v": [2020, 2, 29, 0, 0, 0, 0, 0], "st": st})
@@ -143,6 +195,14 @@ class C16(fw.Prop):
             yield mk({"op": "dec", "b": bytes(b).hex()})
         for n in (0, 1, 5, 11, 13, 24):
             yield mk({"op": "dec", "b": (base * 2)[:n].hex()})
+        for pos, val in ((2, 13), (2, 0), (3, 0), (3, 32), (4, 9), (5, 24), (6, 60), (7, 60), (8, 100), (2, 1), (5, 23)):
+            b = bytearray(base)
+            b[pos] = val
+            yield mk({"op": "dn", "b": bytes(b).hex()})
+        for dev in (900, -900, 841, 840):
+            b = bytearray(base)
+            b[9:11] = (dev % 65536).to_bytes(2, "big")
+            yield mk({"op": "dn", "b": bytes(b).hex()})
 
 
 PROP = C16()
